@@ -245,7 +245,30 @@ func (x *X) diffOracle(prop string, op Op, o, ref *Outcome, data []store.Series)
 		x.Probe("tie-skipped")
 		return
 	}
+	if orderSensitive(op, data, ref.Res) {
+		// the reference's own answer changes with the order in which the storage returns the
+		// series (floating-point summation order, possibly amplified by a discontinuous
+		// function): not decidable by comparison
+		x.R.Skipped = "order-sensitive"
+		x.Probe("order-sensitive-skipped")
+		return
+	}
 	x.Viol(prop, "diff", key(d.Kind), fmt.Sprintf("%s [%d..%d step %d]: %s", op.Q, op.Start, op.End, op.Step, d.Detail))
 }
 
-func (op Op) hasTopK() bool { return strings.Contains(op.Q, "topk") || strings.Contains(op.Q, "bottomk") }
+func orderSensitive(op Op, data []store.Series, base *Result) bool {
+	if len(data) < 2 {
+		return false
+	}
+	for _, seed := range []int64{11, 23, 37, 41} {
+		o := RefQueryPerm(op, data, op.Eng.LookbackMs, seed)
+		if o.Res == nil || Compare(o.Res, base, Tol).Kind != "" {
+			return true
+		}
+	}
+	return false
+}
+
+func (op Op) hasTopK() bool {
+	return strings.Contains(op.Q, "topk") || strings.Contains(op.Q, "bottomk")
+}
